@@ -2,7 +2,8 @@
 //!
 //! Wire lab, HTTP/1.1 client -> HTTP/1.1 backend through a live worker's plain HTTP listeners
 //! (`lab::hdrlab`): five listeners with different header settings, three clusters (plain, sticky,
-//! per-frontend header edits), byte-exact peers. HTTP/2, TLS (and so HSTS) are out of scope here.
+//! per-frontend header edits), byte-exact peers (sub-check `h1h1`). The three conversions involving HTTP/2
+//! (and TLS) are sub-check `h2paths` in `c13_h2.rs`, which reuses the judgement functions of this file.
 
 use std::{
     cell::RefCell,
@@ -73,15 +74,15 @@ pub struct Case {
     pub excluded: u32,
 }
 
-fn bytes(s: &str) -> Vec<u8> {
+pub(super) fn bytes(s: &str) -> Vec<u8> {
     s.chars().map(|c| c as u32 as u8).collect()
 }
 
-fn lc(b: &[u8]) -> String {
+pub(super) fn lc(b: &[u8]) -> String {
     b.iter().map(|c| c.to_ascii_lowercase() as char).collect()
 }
 
-fn fields(h: &[Hdr]) -> Fields {
+pub(super) fn fields(h: &[Hdr]) -> Fields {
     h.iter().map(|(n, v)| (bytes(n), bytes(v))).collect()
 }
 
@@ -96,7 +97,7 @@ impl Case {
 /// (X-Request-Id: the trailer one is always a second one) or appends its own truthful element AFTER the client's
 /// (X-Forwarded-For, Forwarded: a trailer line comes after sozu's element). sozu's H2 trailer path
 /// (`pkawa::handle_trailer`) elides exactly these for this reason.
-fn trailer_protected(name_lc: &str, cfg: &ListenerCfg) -> bool {
+pub(super) fn trailer_protected(name_lc: &str, cfg: &ListenerCfg) -> bool {
     name_lc == cfg.corr.to_ascii_lowercase() || name_lc == "x-request-id" || name_lc == "x-forwarded-for" || name_lc == "forwarded" || (name_lc == "x-real-ip" && cfg.elide)
 }
 
@@ -121,7 +122,7 @@ pub fn sanitise(case: &mut Case) -> u32 {
 
 // ------------------------------------------------------------------ generator
 
-const MANAGED: &[&str] = &["X-Forwarded-For", "X-Forwarded-For", "Forwarded", "Forwarded", "X-Real-IP", "X-Real-IP", "X-Forwarded-Proto", "X-Forwarded-Port", "X-Request-Id", "Sozu-Id", "X-Edge-Trace", "X-Forwarded-Host"];
+pub(super) const MANAGED: &[&str] = &["X-Forwarded-For", "X-Forwarded-For", "Forwarded", "Forwarded", "X-Real-IP", "X-Real-IP", "X-Forwarded-Proto", "X-Forwarded-Port", "X-Request-Id", "Sozu-Id", "X-Edge-Trace", "X-Forwarded-Host"];
 const E2E: &[&str] = &["X-A", "X-B", "X-C", "Accept", "User-Agent", "Authorization", "X-Del-Req", "X-Del-Both", "X-Edit-Req", "X-Edit-Both", "X-Del-Resp", "Cache-Control", "X-Hop1"];
 const HOP: &[&str] = &["Connection", "Connection", "Connection", "Keep-Alive", "TE", "Upgrade", "Proxy-Connection", "X-Hop1", "X-Hop1", "X-Hop2"];
 const CONNECTION_VALUES: &[&str] = &["keep-alive", "close", "Keep-Alive, X-Hop1", "x-hop1, x-hop2", "X-Hop1", "x-hop1", "upgrade", "TE, x-hop1", "Close", "x-hop2", "X-Real-IP", "x-forwarded-for, keep-alive", "", "keep-alive, close"];
@@ -159,7 +160,7 @@ fn typical(name_lc: &str, x: u32) -> String {
     pool[pick_idx(x, pool.len())].to_string()
 }
 
-fn generic_value() -> BoxedStrategy<String> {
+pub(super) fn generic_value() -> BoxedStrategy<String> {
     prop_oneof![
         4 => Just(String::new()),
         7 => "[a-zA-Z0-9._~-]{1,24}",
@@ -174,7 +175,7 @@ fn generic_value() -> BoxedStrategy<String> {
 }
 
 /// (name or placeholder, value, case mask)
-fn name_value(names: &'static [&'static str]) -> BoxedStrategy<(String, String, u32)> {
+pub(super) fn name_value(names: &'static [&'static str]) -> BoxedStrategy<(String, String, u32)> {
     (any::<u32>(), any::<u32>(), prop_oneof![3 => Just(None), 2 => generic_value().prop_map(Some)], prop_oneof![3 => Just(0u32), 1 => any::<u32>()])
         .prop_map(move |(ni, ti, gv, mask)| {
             let name = names[pick_idx(ni, names.len())].to_string();
@@ -187,7 +188,7 @@ fn name_value(names: &'static [&'static str]) -> BoxedStrategy<(String, String, 
 const CRUMB_NAMES: &[&str] = &["sid", "theme", "@sticky", "@sticky", "SOZUBALANCEID", "LABSTICK", "sozubalanceid", "Labstick", "a", "@sticky2"];
 const CRUMB_VALUES: &[&str] = &["1", "abc", "@backend", "@backend", "bogus-backend", "", "k=v", "hello world", "sticky-0", "plain-0", "0123456789abcdef0123456789abcdef"];
 
-fn cookie_header() -> BoxedStrategy<(String, String, u32)> {
+pub(super) fn cookie_header() -> BoxedStrategy<(String, String, u32)> {
     (prop::collection::vec((any::<u32>(), any::<u32>()), 1..5), prop_oneof![4 => Just("; "), 1 => Just(";"), 1 => Just(";  ")], prop_oneof![4 => Just(0u32), 1 => any::<u32>()])
         .prop_map(|(crumbs, sep, mask)| {
             let v: Vec<String> = crumbs.iter().map(|(n, v)| format!("{}={}", CRUMB_NAMES[pick_idx(*n, CRUMB_NAMES.len())], CRUMB_VALUES[pick_idx(*v, CRUMB_VALUES.len())])).collect();
@@ -208,7 +209,7 @@ fn recase(name: &str, mask: u32) -> String {
 }
 
 /// a generated list plus duplicates of some of its entries (same name, other value) at other positions
-fn header_list(item: fn() -> BoxedStrategy<(String, String, u32)>, max: usize) -> BoxedStrategy<Vec<(String, String, u32)>> {
+pub(super) fn header_list(item: fn() -> BoxedStrategy<(String, String, u32)>, max: usize) -> BoxedStrategy<Vec<(String, String, u32)>> {
     (prop::collection::vec(item(), 0..max), prop::collection::vec((any::<u32>(), any::<u32>(), any::<u32>(), prop_oneof![2 => Just(None), 1 => generic_value().prop_map(Some)], any::<u32>()), 0..3))
         .prop_map(|(mut list, dups)| {
             for (src, pos, ti, gv, mask) in dups {
@@ -229,7 +230,7 @@ fn header_list(item: fn() -> BoxedStrategy<(String, String, u32)>, max: usize) -
         .boxed()
 }
 
-fn response_header() -> BoxedStrategy<(String, String, u32)> {
+pub(super) fn response_header() -> BoxedStrategy<(String, String, u32)> {
     prop_oneof![
         3 => name_value(RESP_NAMES),
         1 => (any::<u32>(), any::<u32>()).prop_map(|(n, v)| (
@@ -278,7 +279,7 @@ fn src_strategy() -> impl Strategy<Value = (Src, Src)> {
     )
 }
 
-fn resolve(list: Vec<(String, String, u32)>, cfg: &ListenerCfg, cluster: usize, forwarded_balanced: bool) -> Vec<Hdr> {
+pub(super) fn resolve(list: Vec<(String, String, u32)>, cfg: &ListenerCfg, cluster: usize, forwarded_balanced: bool) -> Vec<Hdr> {
     let other_sticky = if cfg.sticky == hdrlab::STICKY_DEFAULT { hdrlab::STICKY_CUSTOM } else { hdrlab::STICKY_DEFAULT };
     list.into_iter()
         .map(|(n, v, mask)| {
@@ -344,9 +345,9 @@ pub fn strategy() -> impl Strategy<Value = Case> {
 
 // ------------------------------------------------------------------ oracle helpers
 
-type Grouped = BTreeMap<String, Vec<Vec<u8>>>;
+pub(super) type Grouped = BTreeMap<String, Vec<Vec<u8>>>;
 
-fn group(f: &Fields) -> Grouped {
+pub(super) fn group(f: &Fields) -> Grouped {
     let mut g = Grouped::new();
     for (n, v) in f {
         g.entry(lc(n)).or_default().push(trim(v).to_vec());
@@ -354,15 +355,15 @@ fn group(f: &Fields) -> Grouped {
     g
 }
 
-fn get<'a>(g: &'a Grouped, n: &str) -> &'a [Vec<u8>] {
+pub(super) fn get<'a>(g: &'a Grouped, n: &str) -> &'a [Vec<u8>] {
     g.get(n).map(|v| v.as_slice()).unwrap_or(&[])
 }
 
-fn show(v: &[Vec<u8>]) -> String {
+pub(super) fn show(v: &[Vec<u8>]) -> String {
     format!("{:?}", v.iter().map(|x| engine::truncate(&lossy(x), 100)).collect::<Vec<_>>())
 }
 
-fn trim(v: &[u8]) -> &[u8] {
+pub(super) fn trim(v: &[u8]) -> &[u8] {
     let mut a = 0;
     let mut b = v.len();
     while a < b && (v[a] == b' ' || v[a] == b'\t') {
@@ -375,11 +376,11 @@ fn trim(v: &[u8]) -> &[u8] {
 }
 
 /// the comma-separated elements of a list-valued field given as several lines
-fn elements(lines: &[Vec<u8>]) -> Vec<Vec<u8>> {
+pub(super) fn elements(lines: &[Vec<u8>]) -> Vec<Vec<u8>> {
     lines.iter().flat_map(|l| l.split(|b| *b == b',').map(|e| trim(e).to_vec()).collect::<Vec<_>>()).collect()
 }
 
-fn crumbs(lines: &[Vec<u8>]) -> Vec<Vec<u8>> {
+pub(super) fn crumbs(lines: &[Vec<u8>]) -> Vec<Vec<u8>> {
     lines.iter().flat_map(|l| l.split(|b| *b == b';').map(|e| trim(e).to_vec()).filter(|e| !e.is_empty()).collect::<Vec<_>>()).collect()
 }
 
@@ -432,13 +433,13 @@ fn minus_one(have: &[Vec<u8>], want: &[Vec<u8>], pred: impl Fn(&[u8]) -> bool) -
     (0..have.len()).any(|i| pred(&have[i]) && have[..i].iter().chain(have[i + 1..].iter()).eq(want.iter()))
 }
 
-const HOP_BASE: &[&str] = &["connection", "keep-alive", "proxy-connection", "te", "upgrade", "transfer-encoding", "content-length", "trailer"];
+pub(super) const HOP_BASE: &[&str] = &["connection", "keep-alive", "proxy-connection", "te", "upgrade", "transfer-encoding", "content-length", "trailer"];
 
-struct Peer {
-    ip: IpAddr,
-    port: u16,
+pub(super) struct Peer {
+    pub(super) ip: IpAddr,
+    pub(super) port: u16,
     /// addresses that may be reported as the listener's public address
-    public: Vec<SocketAddr>,
+    pub(super) public: Vec<SocketAddr>,
 }
 
 /// `have` is `want` plus one `<sticky name>=...; Path=/` cookie
@@ -447,17 +448,19 @@ fn plus_any_sticky(have: &[Vec<u8>], want: &[Vec<u8>], sticky: &str) -> bool {
     minus_one(have, want, |v| v.starts_with(&p) && v.ends_with(b"; Path=/"))
 }
 
-struct Ctx<'a> {
+pub(super) struct Ctx<'a> {
     /// an earlier request on this connection went to a sticky cluster
-    sticky_seen: bool,
-    cfg: &'a ListenerCfg,
-    peer: &'a Peer,
-    cluster: usize,
-    i: usize,
+    pub(super) sticky_seen: bool,
+    pub(super) cfg: &'a ListenerCfg,
+    pub(super) peer: &'a Peer,
+    pub(super) cluster: usize,
+    pub(super) i: usize,
+    /// the scheme of the listener the client is connected to: "http" (h1h1 and the plain listener of h2paths) or "https"
+    pub(super) proto: &'static str,
 }
 
 /// what the backend received against what the client sent
-fn check_request(cx: &Ctx, sent: &RawMsg, got: &RawMsg) -> Result<(), Failure> {
+pub(super) fn check_request(cx: &Ctx, sent: &RawMsg, got: &RawMsg) -> Result<(), Failure> {
     let (cfg, peer, i) = (cx.cfg, cx.peer, cx.i);
     let corr = cfg.corr.to_ascii_lowercase();
     let ctx = |what: &str| format!("request {i} on listener {:?} from {}:{}: {what}\n  client sent {:?} {}\n  trailers {}\n  backend got {:?} {}\n  trailers {}", cfg, peer.ip, peer.port, lossy(&sent.start), show_fields(&sent.headers), show_fields(&sent.trailers), lossy(&got.start), show_fields(&got.headers), show_fields(&got.trailers));
@@ -543,12 +546,12 @@ fn check_request(cx: &Ctx, sent: &RawMsg, got: &RawMsg) -> Result<(), Failure> {
         }
         let p = forwarded_params(&have[want.len()]);
         let for_ok = p.get("for").and_then(|f| node(f)).map(|(ip, port)| same_ip(ip, peer.ip) && port.map(|p| p == peer.port).unwrap_or(true)).unwrap_or(false);
-        let proto_ok = p.get("proto").map(|v| v == "http").unwrap_or(true);
+        let proto_ok = p.get("proto").map(|v| v == cx.proto).unwrap_or(true);
         let by_ok = p.get("by").map(|v| node(v).map(|(ip, port)| peer.public.iter().any(|a| same_ip(a.ip(), ip) && port.map(|p| p == a.port()).unwrap_or(true))).unwrap_or(false)).unwrap_or(true);
         for_ok && proto_ok && by_ok
     });
     if !ok {
-        fail!("C13/forwarded", "{}", ctx(&format!("Forwarded elements at the backend {} are not the client's {} followed by one element with for={}:{}, proto=http, by=listener", show(&have), show(&elements(get(&c, "forwarded"))), peer.ip, peer.port)));
+        fail!("C13/forwarded", "{}", ctx(&format!("Forwarded elements at the backend {} are not the client's {} followed by one element with for={}:{}, proto={}, by=listener", show(&have), show(&elements(get(&c, "forwarded"))), peer.ip, peer.port, cx.proto)));
     }
     // ---- X-Real-IP
     let have = get(&b, "x-real-ip");
@@ -562,7 +565,7 @@ fn check_request(cx: &Ctx, sent: &RawMsg, got: &RawMsg) -> Result<(), Failure> {
         fail!(sig, "{}", ctx(&format!("X-Real-IP at the backend {} (elide {}, send {}, client sent {}, peer {})", show(have), cfg.elide, cfg.send, show(get(&c, "x-real-ip")), peer.ip)));
     }
     // ---- X-Forwarded-Proto / -Port
-    for (n, want) in [("x-forwarded-proto", vec![b"http".to_vec()]), ("x-forwarded-port", peer.public.iter().map(|a| a.port().to_string().into_bytes()).collect::<Vec<_>>())] {
+    for (n, want) in [("x-forwarded-proto", vec![cx.proto.as_bytes().to_vec()]), ("x-forwarded-port", peer.public.iter().map(|a| a.port().to_string().into_bytes()).collect::<Vec<_>>())] {
         let have = get(&b, n);
         let ok = cands(n).iter().any(|cv| if cv.is_empty() { have.len() == 1 && want.contains(&have[0]) } else { have == cv.as_slice() });
         if !ok {
@@ -610,7 +613,7 @@ fn check_request(cx: &Ctx, sent: &RawMsg, got: &RawMsg) -> Result<(), Failure> {
 }
 
 /// what the client received against what the backend sent; `backend_corr`: the correlation id the backend saw
-fn check_response(cx: &Ctx, req_sent: &RawMsg, plan_sent: &RawMsg, got: &RawMsg, backend_corr: &[u8]) -> Result<(), Failure> {
+pub(super) fn check_response(cx: &Ctx, req_sent: &RawMsg, plan_sent: &RawMsg, got: &RawMsg, backend_corr: &[u8]) -> Result<(), Failure> {
     let (cfg, i) = (cx.cfg, cx.i);
     let corr = cfg.corr.to_ascii_lowercase();
     let ctx = |what: &str| format!("response {i} on listener {:?} (cluster {}): {what}\n  backend sent {:?} {}\n  client got {:?} {}\n  request cookies {}", cfg, CLUSTERS[cx.cluster].0, lossy(&plan_sent.start), show_fields(&plan_sent.headers), lossy(&got.start), show_fields(&got.headers), show(get(&group(&req_sent.headers), "cookie")));
@@ -694,7 +697,7 @@ fn check_response(cx: &Ctx, req_sent: &RawMsg, plan_sent: &RawMsg, got: &RawMsg,
 
 // ------------------------------------------------------------------ scenario
 
-fn has_token(values: &[&[u8]], token: &[u8]) -> bool {
+pub(super) fn has_token(values: &[&[u8]], token: &[u8]) -> bool {
     values.iter().any(|v| v.split(|b| *b == b',').any(|e| trim(e).eq_ignore_ascii_case(token)))
 }
 
@@ -839,7 +842,7 @@ pub fn scenario(lab: &mut HdrLab, case_in: &Case) -> CheckResult {
             fail!("C13/wrong-backend", "request {i} for cluster {} reached the backend of cluster {}", CLUSTERS[cluster].0, CLUSTERS[new[0].backend].0);
         }
         forwarded += 1;
-        let cx = Ctx { cfg, peer: &c.peer, cluster, i, sticky_seen: sticky_seen_on_conn };
+        let cx = Ctx { cfg, peer: &c.peer, cluster, i, sticky_seen: sticky_seen_on_conn, proto: "http" };
         check_request(&cx, &sent, &new[0].msg)?;
         let backend_corr = new[0].msg.values(&corr_lc).first().map(|v| v.to_vec()).unwrap_or_default();
         check_response(&cx, &sent, &plan_msg, &resp, &backend_corr)?;
@@ -959,12 +962,12 @@ fn child(args: &Args, total: u64) -> Stats {
 
 pub fn run(args: &Args) -> i32 {
     if args.shard.is_some() {
-        let st = child(args, args.cases(60_000, 1_500_000));
+        let st = if args.only.as_deref() == Some(super::c13_h2::SUB) { super::c13_h2::child(args, args.cases(super::c13_h2::QUICK, super::c13_h2::THOROUGH)) } else { child(args, args.cases(60_000, 1_500_000)) };
         return engine::shard::child_finish(args, &st);
     }
     let mut ev = Evidence::new(args, "exploration");
     ev.rule(SUB, RULE);
-    ev.assume("scope: HTTP/1.1 client -> HTTP/1.1 backend over plain HTTP listeners only; HTTP/2 on either side, H2<->H1 conversion (connection-specific fields never crossing into HTTP/2), TLS listeners and therefore HSTS and X-Forwarded-Proto https are not exercised by this check");
+    ev.assume("h1h1 scope: HTTP/1.1 client -> HTTP/1.1 backend over plain HTTP listeners only; HTTP/2 on either side, H2<->H1 conversion (connection-specific fields never crossing into HTTP/2) and X-Forwarded-Proto https over a TLS listener are the subject of sub-check h2paths (props/c13_h2.rs); HSTS is not exercised");
     ev.assume("direct peers are IPv4 loopback addresses 127.a.b.c (the lab listens on 127.0.0.1); IPv6 and arbitrary IPv4 peers are exercised through PROXY-v2 headers only");
     ev.assume("a single client X-Request-Id is documented to be propagated (doc/configure.md, Request-ID propagation) and is admitted; hop-by-hop request/response fields may pass or be removed (the property is silent); Connection itself is not judged");
     ev.assume("client Forwarded values are generated with balanced double quotes; cookie crumbs follow RFC 6265 name=value (no nameless crumbs, no trailing semicolons, no empty Cookie line); framing fields (Host, Content-Length, Transfer-Encoding, Expect) are written by the harness, one each; trailers and responses carry no obs-text");
@@ -1002,5 +1005,7 @@ pub fn run(args: &Args) -> i32 {
         ev.floor(SUB, class, frac);
     }
     engine::shard::run_sharded(&mut ev, args, SUB, 16, Duration::from_secs(args.tier.pick(900, 5400)));
+    super::c13_h2::describe(&mut ev);
+    engine::shard::run_sharded(&mut ev, args, super::c13_h2::SUB, 16, Duration::from_secs(args.tier.pick(900, 5400)));
     ev.finish()
 }
